@@ -18,7 +18,7 @@ CLAIMED = {
    text="TLC explores every store built by anchoring operations in increasing order (plus unpublished ones) over an alphabet with old-key operations and recovers re-committing to already revealed update keys, and checks the action property that a published deactivation is never undone and the invariant that no update at or before the last recover is applied. The harness replays every store, pairs each with its one-operation-shorter predecessor and evaluates the property on the real results (deactivated stays deactivated/empty/no commitments; document = recover's content + only later/unpublished updates)."),
  "C06": dict(engine="Resolution", design="4/C06", technique="TLA+ Resolution model (HistoricalIsTruncation, PastIsImmutable) + replay: real(store, versionTime/versionId) vs real(truncated store) for every store and every cut",
    text="For every enumerated store, every version time 0..max+1 and every version id (each stored reference, plus an unknown one) the real processor is run with the resolution option and, separately, on the truncated history; both must agree with each other and with the specification's result for the truncated store; unknown ids and times before the first operation must be errors."),
- "C12": dict(engine="Resolution", design="4/C12", technique="TLA+ Resolution model over cyclic-commitment alphabets (ConsumeOnce, NoRevisit) + replay with non-termination watchdog",
+ "C12": dict(engine="Resolution", design="4/C12", technique="TLA+ Resolution model over cyclic-commitment alphabets (ConsumeOnce, NoRevisit) + replay with non-termination watchdog; Intake table rows for re-commitment replayed on the real parser for all key types",
    text="Self-loops, 2-cycles and 3-cycles in the update and recovery chains at every chain position are enumerated; TLC checks on the specification that no chain consumes a commitment twice or revisits one; every store is replayed on the real processor (must terminate and equal the specification's chain prefix)."),
  "C05": dict(engine="Window", design="4/C05", technique="TLA+ Window model with the protocol configuration as a variable (WindowEffect, OnlyDelta) + replay of the full product on the real processor and on the real parser with a recording time validator",
    text="The full product of operation type x anchorFrom x anchorUntil x anchoring time x time delta x decoy parameter settings is enumerated by TLC, which derives the expected state from the SidetreeCore state machine and the expected time-validator arguments; each case is executed on real code. Varying unrelated parameters independently is what exposes a window computed from the wrong parameter."),
@@ -28,6 +28,10 @@ CLAIMED = {
    text="Pipeline.tla models intake, queue, writer round, ledger, observer and store with faults as actions (queue add fails, batch write fails, garbage / duplicate-carrying ledger entries, unreadable or unstorable transactions). TLC checks the C15 invariants exhaustively on a bounded instance (268k states) and generates behaviours; the harness runs each on the real DocumentHandler, batch.Writer, OperationHandler, Observer (consecutive transactions delivered as one notification), TxnProcessor and stores, logging after every action the reply, queue, unpublished store, each stored operation with all its stamps and the number of Put calls; TLC accepts the trace only if every logged value equals the specification's."),
  "C20": dict(engine="Pipeline", design="4/C20", technique="TLA+ Pipeline model with SidetreeCore as reference state machine; fault-free TLC-simulated behaviours executed on the real pipeline with trace validation of every ResolveDocument view; create-view agreement evaluated on real outputs",
    text="Fault-free behaviours (2 DIDs, up to 8 submissions, every flush/observe placement, protocol upgrade at any point with version-specific operations, with/without unpublished store) are executed on the real pipeline; after each step the real ResolveDocument view of every DID must equal ResolveRef over the stored + unpublished operations. The create response, long-form resolution before anchoring and short-form resolution after anchoring are compared modulo the DID string."),
+ "C10": dict(engine="Intake", design="4/C10", technique="TLA+ Intake decision table (TLC enumerates baseline + all combinations of <= 2 (thorough 3) rule deviations) replayed on the real Parser.Parse with per-case protocol configuration; postcondition channel for parser entry points",
+   text="Intake.tla states the acceptance predicate rule by rule with every limit expressed relative to its own protocol parameter; TLC enumerates the valid baseline of each operation type and every combination of up to MaxDev deviations; the concretiser builds real bytes and a real protocol configuration in which exactly the named classes hold (each parameter set independently, limits hit exactly at and one past their boundary) and the real parser's verdict must equal Accept. In addition ~3000 structurally mutated / truncated / random inputs go through Parse, ParseOperation(batch), GetRevealValue, GetCommitment, ParseDID and must yield a value or an error, never a panic."),
+ "C11": dict(engine="ClientReq", design="4/C11", technique="TLA+ ClientReq product space + SidetreeCore effect as oracle; real client builders -> real parser (parse-back equality) -> real processor",
+   text="The full product of builder inputs (type, five key types / signature algorithms, two hash algorithms, window forms, patch-list classes, anchor-origin forms, nonce) is enumerated; each request is built by the real client library, must be accepted by a parser enabling exactly that algorithm, must parse back to the inputs field by field, and - anchored inside its window - must produce the state change SidetreeCore computes."),
 }
 
 def check(pid, m):
